@@ -278,6 +278,13 @@ func runC02(c *eng.Ctx) {
 	})
 
 	// ---- 9/10/11. reader cache -----------------------------------------------------------------------------------------
+	c.Rule("ORDER", "kv{pending-output claim is dropped only after the commit that references the file}", func() {
+		f := c.Fn(sfT + ".Commit")
+		neverBeforeDeep(c, f, eng.AnyCallTo("kv.Family.removePendingOutput", famT+".removePendingOutput"), invokeOn(".family", "commitEditLog"), "removePendingOutput", "commitEditLog", 3)
+		m := c.Fn(cjT + ".mergeCompaction")
+		neverBeforeDeep(c, m, eng.AnyCallTo("kv.Family.removePendingOutput", famT+".removePendingOutput"), eng.AnyCallTo("kv.Family.commitEditLog", famT+".commitEditLog"), "removePendingOutput", "commitEditLog", 3)
+	})
+
 	c.Rule("OWNER", scT+"{evict, close, cleanup}", func() {
 		owner(c, "call of Cache.Evict", eng.AnyCallTo("kv/table.Cache.Evict", scT+".Evict"), []string{"kv.store.evictFamilyFile"}, 1)
 		owner(c, "call of store.evictFamilyFile", eng.AnyCallTo("kv.store.evictFamilyFile", "kv.Store.evictFamilyFile"), []string{famT + ".deleteObsoleteFiles"}, 1)
